@@ -398,6 +398,7 @@ func runC08(p *Program, r *Report) {
 	checkGeometryConsistent(p, r, "R08d", []*ssa.Function{e})
 	checkEmptyForestHasNoPositions(p, r, "R08e", e)
 	checkTwinParentInOrder(p, r, "R08f")
+	checkZeroRowsIsNotEmpty(p, r, "R08i", []string{"(*Proof).Undo", "(*Proof).Update"})
 	r.Rule("R08h", "SLOT-CACHE-NOT-PERMUTED: a slice filled slot by slot from another list is not read again after that list (or the struct holding it) was sorted or handed to a method that may insert or delete")
 	checkSlotCacheNotPermuted(p, r, "R08h", []string{"(*Proof).Undo", "(*Proof).Update"})
 
@@ -1074,4 +1075,91 @@ func checkEmptyRootByGeometry(p *Program, r *Report, rule string) {
 		}
 	}
 	r.Floor(rule, "calls of the empty-root step in the deletion-undo", n, 1)
+}
+
+// ---------------------------------------------------------------------------
+// R08i ZERO-ROWS-IS-NOT-EMPTY. TreeRows(n) is 0 for an empty forest and for a
+// forest of one leaf. A return of the cached-proof update/undo that is taken
+// because "the forest had no rows" treats a one-leaf forest - whose leaf can
+// be cached and proven, with an empty proof - like an empty one. In the
+// closure of the two entries no return is guarded by TreeRows(x) == 0 (or the
+// false edge of != 0) unless a guard on x itself is also in force.
+
+func checkZeroRowsIsNotEmpty(p *Program, r *Report, rule string, entries []string) {
+	r.Rule(rule, "ZERO-ROWS-IS-NOT-EMPTY: in the cached-proof update and undo no return is taken on TreeRows(x) == 0 alone (a forest of one leaf has zero rows and a provable leaf)")
+	rowsFn := p.Func("TreeRows")
+	var es []*ssa.Function
+	for _, e := range entries {
+		if f := p.Func(e); f != nil {
+			es = append(es, f)
+		} else {
+			r.MissingAnchor(rule, e, e+" not found")
+		}
+	}
+	if rowsFn == nil {
+		r.MissingAnchor(rule, "TreeRows", "row function not found")
+		return
+	}
+	reach := p.StaticReach(es...)
+	for _, e := range es {
+		reach[e] = true
+	}
+	rowsOf := func(v ssa.Value) (ssa.Value, bool) {
+		c, ok := v.(*ssa.Call)
+		if !ok || c.Common().StaticCallee() != rowsFn || len(c.Common().Args) != 1 {
+			return nil, false
+		}
+		return c.Common().Args[0], true
+	}
+	isZeroConst := func(v ssa.Value) bool {
+		c, ok := v.(*ssa.Const)
+		return ok && c.Value != nil && c.Value.String() == "0"
+	}
+	n, bad := 0, 0
+	for _, fn := range sortedFuncs(p, reach) {
+		if fn.Blocks == nil || !p.owns(fn) {
+			continue
+		}
+		idx := 0
+		for _, ret := range returnsOf(fn) {
+			gs := guardsAt(ret.Block())
+			for _, g := range gs {
+				rel, ok := relOf(g)
+				if !ok || rel.Op != token.EQL {
+					continue
+				}
+				var arg ssa.Value
+				if a, isRows := rowsOf(rel.X); isRows && isZeroConst(rel.Y) {
+					arg = a
+				} else if a, isRows := rowsOf(rel.Y); isRows && isZeroConst(rel.X) {
+					arg = a
+				} else {
+					continue
+				}
+				n++
+				idx++
+				key := fmt.Sprintf("%s/return-on-zero-rows#%d", p.FuncName(fn), idx)
+				// another guard that looks at the leaf count itself
+				exact := false
+				for _, g2 := range gs {
+					rel2, ok := relOf(g2)
+					if !ok || g2.If == g.If {
+						continue
+					}
+					if sameValue(rel2.X, arg) || sameValue(rel2.Y, arg) {
+						exact = true
+					}
+				}
+				if exact {
+					r.Discharge(rule, key, posOf(p, ret), "the return is also under a test of the leaf count itself", true)
+				} else {
+					bad++
+					r.Violate(rule, key, posOf(p, ret), "this return is taken because TreeRows(x) == 0, which holds for a forest of one leaf as well as for an empty one: a cached leaf of a one-leaf forest (provable with an empty proof) is treated as if nothing could have been proven", "in "+p.FuncName(fn))
+				}
+			}
+		}
+	}
+	if n == 0 {
+		r.Discharge(rule, "closure/no-return-on-zero-rows", "-", "no return of the closure is guarded by TreeRows(x) == 0", false)
+	}
 }
